@@ -90,6 +90,10 @@ def generate(tier, rng):
         steps += [{"act": "Callback"}, {"act": "Pop"}, {"act": "Callback"}, {"act": "Callback"}]
         scen.append({"r": r, "len": ln, "pk": rng.choice([1, 2, 3, 5]), "fail": rng.choice([0, 0, 1, 2, 3, 4, 6, 9]),
                      "nf": rng.choice([1, 2, 4]), "src": "random", "eos": 2 if k % 10 == 9 else 1, "steps": steps})
+    # directed: a paused stream whose ring is full - the thread finds it full twelve times in a row and must come back promptly
+    scen.append({"r": 3, "len": 30, "pk": 2, "fail": 0, "nf": 2, "src": "directed-idle", "eos": 1,
+                 "steps": [{"act": "Play", "rejected": False}] + [{"act": "DStep"}] * 5 + [{"act": "Pause"}, {"act": "Callback"}] + [{"act": "DStep"}] * 24
+                          + [{"act": "Stop"}, {"act": "Callback"}] + [{"act": "DStep"}] * 3})
     return scen
 
 
